@@ -106,7 +106,8 @@ static CC_HashTableIter it; static int it_valid;
 static uint64_t universe[4096]; static size_t n_univ;
 static unsigned long long ord_log[4096]; static size_t ord_n; static int ord_on;
 static int load_bound_broken; /* C20: size > threshold right after a successful insertion */
-static void shim_reset(void) { sparse = 0; ht = NULL; for (int i = 0; i < NSLOT; i++) darr[i] = NULL; it_valid = 0; n_univ = 0; }
+static void eids_reset(void);
+static void shim_reset(void) { eids_reset(); sparse = 0; ht = NULL; for (int i = 0; i < NSLOT; i++) darr[i] = NULL; it_valid = 0; n_univ = 0; }
 static void univ_add(uint64_t k) {
     for (size_t i = 0; i < n_univ; i++) if (universe[i] == k) return;
     if (n_univ < 4096) universe[n_univ++] = k;
@@ -159,6 +160,40 @@ static const char *ptr_name(TableEntry *p, char *buf) {
         if (e == p) { snprintf(buf, 32, "%llu", keyval(e->key)); return buf; }
     return "x";
 }
+
+/* ---- entry ids in allocation order: an entry gets the next serial number when it is first seen by this walk (at
+   most one entry is allocated per operation and every operation is followed by the walk); an entry that has left
+   the table loses its id, so an address the allocator hands out again gets a fresh serial -- exactly the ids of the
+   pointer-level model (Model/PHash.lean).  `pe=[bucket:id:key:next,...]` prints every chain with its raw links. */
+#define NEIDS 65536
+static struct { TableEntry *p; unsigned long id; unsigned long gen; } eids[NEIDS];
+static size_t n_eids; static unsigned long eid_next, eid_gen;
+static void eids_reset(void) { n_eids = 0; eid_next = 0; }
+static void eids_scan(CC_HashTable *t) {
+    eid_gen++;
+    for (size_t i = 0; i < t->capacity; i++) for (TableEntry *e = t->buckets[i]; e; e = e->next) {
+        size_t j; for (j = 0; j < n_eids; j++) if (eids[j].p == e) break;
+        if (j == n_eids) { if (n_eids >= NEIDS) { fprintf(stderr, "entry id table full\n"); exit(3); }
+            eids[n_eids].p = e; eids[n_eids].id = eid_next++; n_eids++; }
+        eids[j].gen = eid_gen;
+    }
+    size_t k = 0; for (size_t j = 0; j < n_eids; j++) if (eids[j].gen == eid_gen) eids[k++] = eids[j];
+    n_eids = k;
+}
+static void o_eid(TableEntry *p) {
+    if (!p) { o("-"); return; }
+    for (size_t j = 0; j < n_eids; j++) if (eids[j].p == p) { o("%lu", eids[j].id); return; }
+    o("x");
+}
+static void o_pentries(CC_HashTable *t) {
+    eids_scan(t);
+    o(" pe=["); int first = 1;
+    for (size_t i = 0; i < t->capacity; i++) for (TableEntry *e = t->buckets[i]; e; e = e->next) {
+        o(first ? "%zu:" : ",%zu:", i); first = 0; o_eid(e); o(":%llu:", keyval(e->key)); o_eid(e->next);
+    }
+    o("]");
+}
+
 static void phys(void) {
     if (ht) {
         o("cap=%zu size=%zu thr=%zu ", ht->capacity, ht->size, ht->threshold);
@@ -169,6 +204,8 @@ static void phys(void) {
         }
         o_end();
         if (it_valid) { char b1[32], b2[32]; o(" it=%zu/%s/%s", it.bucket_index, ptr_name(it.prev_entry, b1), ptr_name(it.next_entry, b2)); }
+        o_pentries(ht);
+        if (it_valid) { o(" pit=%zu/", it.bucket_index); o_eid(it.prev_entry); o("/"); o_eid(it.next_entry); }
         /* L2 walkers */
         if (load_bound_broken) o(" WALK=load-bound-after-insert");
         if (total != ht->size) o(" WALK=chain-lengths-vs-size");
@@ -196,12 +233,12 @@ static void do_op(Cmd *c) {
     int slot = (int)kv_u64(c, "to", kv_u64(c, "o", 0));
     if (is_op(c, "new")) {
         CC_HashTableConf conf; conf_from_cmd(c, &conf);
-        ht = NULL; it_valid = 0;
+        ht = NULL; it_valid = 0; eids_reset();
         enum cc_stat st = cc_hashtable_new_conf(&conf, &ht);
         if (st != CC_OK) ht = NULL;
         o_stat(st); o(" ");
     } else if (is_op(c, "new_default")) {
-        ht = NULL; it_valid = 0; key_kind = K_STR; key_fresh = 0; sparse = !strcmp(kv_str(c, "obs", "full"), "sparse");
+        ht = NULL; it_valid = 0; eids_reset(); key_kind = K_STR; key_fresh = 0; sparse = !strcmp(kv_str(c, "obs", "full"), "sparse");
         enum cc_stat st = cc_hashtable_new(&ht); if (st != CC_OK) ht = NULL; o_stat(st); o(" ");
     } else if (is_op(c, "arr_add") || is_op(c, "arr_destroy")) {
         if (slot < 1 || slot >= NSLOT || !darr[slot]) { o("st=- noslot "); }
